@@ -105,7 +105,7 @@ def encode(c):
         out = []
         for op, st in zip(ops, steps):
             k = op["op"]
-            t = C("OPub", Z(op.get("qos", 0))) if k == "pub" else {"ack": "OAck", "await": "OAwait", "quiet": "OQuiet"}[k]
+            t = C("OPub", Z(op.get("qos", 0))) if k == "pub" else {"ack": "OAck", "await": "OAwait", "seen": "OAwait", "quiet": "OQuiet", "gap": "OQuiet"}[k]
             out.append(Rec(ss_op=t, ss_recv=L([T(Z(a), Z(b), Z(m)) for a, b, m in st.get("recv") or []]),
                            ss_acked=Z(st.get("acked", -1)), ss_res=Z(_RES.get(st.get("res"), 3))))
         return Rec(sc_subqos=Z(i["subqos"]), sc_start=Z(i.get("startid", 0)), sc_steps=L(out), sc_bad=B(bool(o.get("bad")) or len(steps) != len(ops)))
